@@ -37,6 +37,13 @@ type comparison =
 | Lt
 | Gt
 
+(** val compOpp : comparison -> comparison **)
+
+let compOpp = function
+| Eq -> Eq
+| Lt -> Gt
+| Gt -> Lt
+
 module Coq__1 = struct
  (** val add : nat -> nat -> nat **)
  let rec add n0 m =
@@ -64,6 +71,17 @@ let rec sub n0 m =
 
 module Nat =
  struct
+  (** val eqb : nat -> nat -> bool **)
+
+  let rec eqb n0 m =
+    match n0 with
+    | O -> (match m with
+            | O -> true
+            | S _ -> false)
+    | S n' -> (match m with
+               | O -> false
+               | S m' -> eqb n' m')
+
   (** val leb : nat -> nat -> bool **)
 
   let rec leb n0 m =
@@ -79,6 +97,12 @@ module Nat =
     leb (S n0) m
  end
 
+(** val tl : 'a1 list -> 'a1 list **)
+
+let tl = function
+| [] -> []
+| _ :: m -> m
+
 (** val nth : nat -> 'a1 list -> 'a1 -> 'a1 **)
 
 let rec nth n0 l default =
@@ -90,11 +114,39 @@ let rec nth n0 l default =
             | [] -> default
             | _ :: t -> nth m t default)
 
+(** val nth_error : 'a1 list -> nat -> 'a1 option **)
+
+let rec nth_error l = function
+| O -> (match l with
+        | [] -> None
+        | x :: _ -> Some x)
+| S n1 -> (match l with
+           | [] -> None
+           | _ :: l0 -> nth_error l0 n1)
+
+(** val rev_append : 'a1 list -> 'a1 list -> 'a1 list **)
+
+let rec rev_append l l' =
+  match l with
+  | [] -> l'
+  | a :: l0 -> rev_append l0 (a :: l')
+
+(** val rev' : 'a1 list -> 'a1 list **)
+
+let rev' l =
+  rev_append l []
+
 (** val map : ('a1 -> 'a2) -> 'a1 list -> 'a2 list **)
 
 let rec map f = function
 | [] -> []
 | a :: t -> (f a) :: (map f t)
+
+(** val flat_map : ('a1 -> 'a2 list) -> 'a1 list -> 'a2 list **)
+
+let rec flat_map f = function
+| [] -> []
+| x :: t -> app (f x) (flat_map f t)
 
 (** val fold_left : ('a1 -> 'a2 -> 'a1) -> 'a2 list -> 'a1 -> 'a1 **)
 
@@ -123,6 +175,15 @@ let rec firstn n0 l =
   | S n1 -> (match l with
              | [] -> []
              | a :: l0 -> a :: (firstn n1 l0))
+
+(** val skipn : nat -> 'a1 list -> 'a1 list **)
+
+let rec skipn n0 l =
+  match n0 with
+  | O -> l
+  | S n1 -> (match l with
+             | [] -> []
+             | _ :: l0 -> skipn n1 l0)
 
 (** val seq : nat -> nat -> nat list **)
 
@@ -173,17 +234,17 @@ module Coq_Pos =
     match x with
     | XI p ->
       (match y with
-       | XI q -> XO (add_carry p q)
-       | XO q -> XI (add p q)
+       | XI q0 -> XO (add_carry p q0)
+       | XO q0 -> XI (add p q0)
        | XH -> XO (succ p))
     | XO p ->
       (match y with
-       | XI q -> XI (add p q)
-       | XO q -> XO (add p q)
+       | XI q0 -> XI (add p q0)
+       | XO q0 -> XO (add p q0)
        | XH -> XI p)
     | XH -> (match y with
-             | XI q -> XO (succ q)
-             | XO q -> XI q
+             | XI q0 -> XO (succ q0)
+             | XO q0 -> XI q0
              | XH -> XO XH)
 
   (** val add_carry : positive -> positive -> positive **)
@@ -192,18 +253,18 @@ module Coq_Pos =
     match x with
     | XI p ->
       (match y with
-       | XI q -> XI (add_carry p q)
-       | XO q -> XO (add_carry p q)
+       | XI q0 -> XI (add_carry p q0)
+       | XO q0 -> XO (add_carry p q0)
        | XH -> XI (succ p))
     | XO p ->
       (match y with
-       | XI q -> XO (add_carry p q)
-       | XO q -> XI (add p q)
+       | XI q0 -> XO (add_carry p q0)
+       | XO q0 -> XI (add p q0)
        | XH -> XO (succ p))
     | XH ->
       (match y with
-       | XI q -> XI (succ q)
-       | XO q -> XO (succ q)
+       | XI q0 -> XI (succ q0)
+       | XO q0 -> XO (succ q0)
        | XH -> XI XH)
 
   (** val pred_double : positive -> positive **)
@@ -251,13 +312,13 @@ module Coq_Pos =
     match x with
     | XI p ->
       (match y with
-       | XI q -> double_mask (sub_mask p q)
-       | XO q -> succ_double_mask (sub_mask p q)
+       | XI q0 -> double_mask (sub_mask p q0)
+       | XO q0 -> succ_double_mask (sub_mask p q0)
        | XH -> IsPos (XO p))
     | XO p ->
       (match y with
-       | XI q -> succ_double_mask (sub_mask_carry p q)
-       | XO q -> double_mask (sub_mask p q)
+       | XI q0 -> succ_double_mask (sub_mask_carry p q0)
+       | XO q0 -> double_mask (sub_mask p q0)
        | XH -> IsPos (pred_double p))
     | XH -> (match y with
              | XH -> IsNul
@@ -269,13 +330,13 @@ module Coq_Pos =
     match x with
     | XI p ->
       (match y with
-       | XI q -> succ_double_mask (sub_mask_carry p q)
-       | XO q -> double_mask (sub_mask p q)
+       | XI q0 -> succ_double_mask (sub_mask_carry p q0)
+       | XO q0 -> double_mask (sub_mask p q0)
        | XH -> IsPos (pred_double p))
     | XO p ->
       (match y with
-       | XI q -> double_mask (sub_mask_carry p q)
-       | XO q -> succ_double_mask (sub_mask_carry p q)
+       | XI q0 -> double_mask (sub_mask_carry p q0)
+       | XO q0 -> succ_double_mask (sub_mask_carry p q0)
        | XH -> double_pred_mask p)
     | XH -> IsNeg
 
@@ -300,13 +361,13 @@ module Coq_Pos =
     match x with
     | XI p ->
       (match y with
-       | XI q -> compare_cont r p q
-       | XO q -> compare_cont Gt p q
+       | XI q0 -> compare_cont r p q0
+       | XO q0 -> compare_cont Gt p q0
        | XH -> Gt)
     | XO p ->
       (match y with
-       | XI q -> compare_cont Lt p q
-       | XO q -> compare_cont r p q
+       | XI q0 -> compare_cont Lt p q0
+       | XO q0 -> compare_cont r p q0
        | XH -> Gt)
     | XH -> (match y with
              | XH -> r
@@ -319,15 +380,15 @@ module Coq_Pos =
 
   (** val eqb : positive -> positive -> bool **)
 
-  let rec eqb p q =
+  let rec eqb p q0 =
     match p with
-    | XI p0 -> (match q with
-                | XI q0 -> eqb p0 q0
+    | XI p0 -> (match q0 with
+                | XI q1 -> eqb p0 q1
                 | _ -> false)
-    | XO p0 -> (match q with
-                | XO q0 -> eqb p0 q0
+    | XO p0 -> (match q0 with
+                | XO q1 -> eqb p0 q1
                 | _ -> false)
-    | XH -> (match q with
+    | XH -> (match q0 with
              | XH -> true
              | _ -> false)
 
@@ -345,55 +406,55 @@ module Coq_Pos =
 
   (** val coq_lor : positive -> positive -> positive **)
 
-  let rec coq_lor p q =
+  let rec coq_lor p q0 =
     match p with
     | XI p0 ->
-      (match q with
-       | XI q0 -> XI (coq_lor p0 q0)
-       | XO q0 -> XI (coq_lor p0 q0)
+      (match q0 with
+       | XI q1 -> XI (coq_lor p0 q1)
+       | XO q1 -> XI (coq_lor p0 q1)
        | XH -> p)
     | XO p0 ->
-      (match q with
-       | XI q0 -> XI (coq_lor p0 q0)
-       | XO q0 -> XO (coq_lor p0 q0)
+      (match q0 with
+       | XI q1 -> XI (coq_lor p0 q1)
+       | XO q1 -> XO (coq_lor p0 q1)
        | XH -> XI p0)
-    | XH -> (match q with
-             | XO q0 -> XI q0
-             | _ -> q)
+    | XH -> (match q0 with
+             | XO q1 -> XI q1
+             | _ -> q0)
 
   (** val coq_land : positive -> positive -> n **)
 
-  let rec coq_land p q =
+  let rec coq_land p q0 =
     match p with
     | XI p0 ->
-      (match q with
-       | XI q0 -> coq_Nsucc_double (coq_land p0 q0)
-       | XO q0 -> coq_Ndouble (coq_land p0 q0)
+      (match q0 with
+       | XI q1 -> coq_Nsucc_double (coq_land p0 q1)
+       | XO q1 -> coq_Ndouble (coq_land p0 q1)
        | XH -> Npos XH)
     | XO p0 ->
-      (match q with
-       | XI q0 -> coq_Ndouble (coq_land p0 q0)
-       | XO q0 -> coq_Ndouble (coq_land p0 q0)
+      (match q0 with
+       | XI q1 -> coq_Ndouble (coq_land p0 q1)
+       | XO q1 -> coq_Ndouble (coq_land p0 q1)
        | XH -> N0)
-    | XH -> (match q with
+    | XH -> (match q0 with
              | XO _ -> N0
              | _ -> Npos XH)
 
   (** val ldiff : positive -> positive -> n **)
 
-  let rec ldiff p q =
+  let rec ldiff p q0 =
     match p with
     | XI p0 ->
-      (match q with
-       | XI q0 -> coq_Ndouble (ldiff p0 q0)
-       | XO q0 -> coq_Nsucc_double (ldiff p0 q0)
+      (match q0 with
+       | XI q1 -> coq_Ndouble (ldiff p0 q1)
+       | XO q1 -> coq_Nsucc_double (ldiff p0 q1)
        | XH -> Npos (XO p0))
     | XO p0 ->
-      (match q with
-       | XI q0 -> coq_Ndouble (ldiff p0 q0)
-       | XO q0 -> coq_Ndouble (ldiff p0 q0)
+      (match q0 with
+       | XI q1 -> coq_Ndouble (ldiff p0 q1)
+       | XO q1 -> coq_Ndouble (ldiff p0 q1)
        | XH -> Npos p)
-    | XH -> (match q with
+    | XH -> (match q0 with
              | XO _ -> Npos XH
              | _ -> N0)
 
@@ -419,10 +480,10 @@ module Coq_Pos =
 
   (** val iter_op : ('a1 -> 'a1 -> 'a1) -> positive -> 'a1 -> 'a1 **)
 
-  let rec iter_op op0 p a =
+  let rec iter_op op1 p a =
     match p with
-    | XI p0 -> op0 a (iter_op op0 p0 (op0 a a))
-    | XO p0 -> iter_op op0 p0 (op0 a a)
+    | XI p0 -> op1 a (iter_op op1 p0 (op1 a a))
+    | XO p0 -> iter_op op1 p0 (op1 a a)
     | XH -> a
 
   (** val to_nat : positive -> nat **)
@@ -458,7 +519,7 @@ module N =
     | N0 -> m
     | Npos p -> (match m with
                  | N0 -> n0
-                 | Npos q -> Npos (Coq_Pos.add p q))
+                 | Npos q0 -> Npos (Coq_Pos.add p q0))
 
   (** val sub : n -> n -> n **)
 
@@ -480,7 +541,7 @@ module N =
     | N0 -> N0
     | Npos p -> (match m with
                  | N0 -> N0
-                 | Npos q -> Npos (Coq_Pos.mul p q))
+                 | Npos q0 -> Npos (Coq_Pos.mul p q0))
 
   (** val compare : n -> n -> comparison **)
 
@@ -502,7 +563,7 @@ module N =
              | Npos _ -> false)
     | Npos p -> (match m with
                  | N0 -> false
-                 | Npos q -> Coq_Pos.eqb p q)
+                 | Npos q0 -> Coq_Pos.eqb p q0)
 
   (** val leb : n -> n -> bool **)
 
@@ -539,13 +600,13 @@ module N =
   let rec pos_div_eucl a b =
     match a with
     | XI a' ->
-      let (q, r) = pos_div_eucl a' b in
+      let (q0, r) = pos_div_eucl a' b in
       let r' = succ_double r in
-      if leb b r' then ((succ_double q), (sub r' b)) else ((double q), r')
+      if leb b r' then ((succ_double q0), (sub r' b)) else ((double q0), r')
     | XO a' ->
-      let (q, r) = pos_div_eucl a' b in
+      let (q0, r) = pos_div_eucl a' b in
       let r' = double r in
-      if leb b r' then ((succ_double q), (sub r' b)) else ((double q), r')
+      if leb b r' then ((succ_double q0), (sub r' b)) else ((double q0), r')
     | XH ->
       (match b with
        | N0 -> (N0, (Npos XH))
@@ -572,9 +633,10 @@ module N =
   let coq_lor n0 m =
     match n0 with
     | N0 -> m
-    | Npos p -> (match m with
-                 | N0 -> n0
-                 | Npos q -> Npos (Coq_Pos.coq_lor p q))
+    | Npos p ->
+      (match m with
+       | N0 -> n0
+       | Npos q0 -> Npos (Coq_Pos.coq_lor p q0))
 
   (** val coq_land : n -> n -> n **)
 
@@ -583,7 +645,7 @@ module N =
     | N0 -> N0
     | Npos p -> (match m with
                  | N0 -> N0
-                 | Npos q -> Coq_Pos.coq_land p q)
+                 | Npos q0 -> Coq_Pos.coq_land p q0)
 
   (** val ldiff : n -> n -> n **)
 
@@ -592,7 +654,7 @@ module N =
     | N0 -> N0
     | Npos p -> (match m with
                  | N0 -> n0
-                 | Npos q -> Coq_Pos.ldiff p q)
+                 | Npos q0 -> Coq_Pos.ldiff p q0)
 
   (** val shiftl : n -> n -> n **)
 
@@ -656,18 +718,18 @@ module Z =
     match x with
     | XI p ->
       (match y with
-       | XI q -> double (pos_sub p q)
-       | XO q -> succ_double (pos_sub p q)
+       | XI q0 -> double (pos_sub p q0)
+       | XO q0 -> succ_double (pos_sub p q0)
        | XH -> Zpos (XO p))
     | XO p ->
       (match y with
-       | XI q -> pred_double (pos_sub p q)
-       | XO q -> double (pos_sub p q)
+       | XI q0 -> pred_double (pos_sub p q0)
+       | XO q0 -> double (pos_sub p q0)
        | XH -> Zpos (Coq_Pos.pred_double p))
     | XH ->
       (match y with
-       | XI q -> Zneg (XO q)
-       | XO q -> Zneg (Coq_Pos.pred_double q)
+       | XI q0 -> Zneg (XO q0)
+       | XO q0 -> Zneg (Coq_Pos.pred_double q0)
        | XH -> Z0)
 
   (** val add : z -> z -> z **)
@@ -698,6 +760,64 @@ module Z =
   let sub m n0 =
     add m (opp n0)
 
+  (** val mul : z -> z -> z **)
+
+  let mul x y =
+    match x with
+    | Z0 -> Z0
+    | Zpos x' ->
+      (match y with
+       | Z0 -> Z0
+       | Zpos y' -> Zpos (Coq_Pos.mul x' y')
+       | Zneg y' -> Zneg (Coq_Pos.mul x' y'))
+    | Zneg x' ->
+      (match y with
+       | Z0 -> Z0
+       | Zpos y' -> Zneg (Coq_Pos.mul x' y')
+       | Zneg y' -> Zpos (Coq_Pos.mul x' y'))
+
+  (** val pow_pos : z -> positive -> z **)
+
+  let pow_pos z0 =
+    Coq_Pos.iter (mul z0) (Zpos XH)
+
+  (** val pow : z -> z -> z **)
+
+  let pow x = function
+  | Z0 -> Zpos XH
+  | Zpos p -> pow_pos x p
+  | Zneg _ -> Z0
+
+  (** val compare : z -> z -> comparison **)
+
+  let compare x y =
+    match x with
+    | Z0 -> (match y with
+             | Z0 -> Eq
+             | Zpos _ -> Lt
+             | Zneg _ -> Gt)
+    | Zpos x' -> (match y with
+                  | Zpos y' -> Coq_Pos.compare x' y'
+                  | _ -> Gt)
+    | Zneg x' ->
+      (match y with
+       | Zneg y' -> compOpp (Coq_Pos.compare x' y')
+       | _ -> Lt)
+
+  (** val leb : z -> z -> bool **)
+
+  let leb x y =
+    match compare x y with
+    | Gt -> false
+    | _ -> true
+
+  (** val ltb : z -> z -> bool **)
+
+  let ltb x y =
+    match compare x y with
+    | Lt -> true
+    | _ -> false
+
   (** val eqb : z -> z -> bool **)
 
   let eqb x y =
@@ -706,10 +826,10 @@ module Z =
              | Z0 -> true
              | _ -> false)
     | Zpos p -> (match y with
-                 | Zpos q -> Coq_Pos.eqb p q
+                 | Zpos q0 -> Coq_Pos.eqb p q0
                  | _ -> false)
     | Zneg p -> (match y with
-                 | Zneg q -> Coq_Pos.eqb p q
+                 | Zneg q0 -> Coq_Pos.eqb p q0
                  | _ -> false)
 
   (** val to_nat : z -> nat **)
@@ -735,7 +855,60 @@ module Z =
   let of_N = function
   | N0 -> Z0
   | Npos p -> Zpos p
+
+  (** val pos_div_eucl : positive -> z -> z * z **)
+
+  let rec pos_div_eucl a b =
+    match a with
+    | XI a' ->
+      let (q0, r) = pos_div_eucl a' b in
+      let r' = add (mul (Zpos (XO XH)) r) (Zpos XH) in
+      if ltb r' b
+      then ((mul (Zpos (XO XH)) q0), r')
+      else ((add (mul (Zpos (XO XH)) q0) (Zpos XH)), (sub r' b))
+    | XO a' ->
+      let (q0, r) = pos_div_eucl a' b in
+      let r' = mul (Zpos (XO XH)) r in
+      if ltb r' b
+      then ((mul (Zpos (XO XH)) q0), r')
+      else ((add (mul (Zpos (XO XH)) q0) (Zpos XH)), (sub r' b))
+    | XH -> if leb (Zpos (XO XH)) b then (Z0, (Zpos XH)) else ((Zpos XH), Z0)
+
+  (** val div_eucl : z -> z -> z * z **)
+
+  let div_eucl a b =
+    match a with
+    | Z0 -> (Z0, Z0)
+    | Zpos a' ->
+      (match b with
+       | Z0 -> (Z0, a)
+       | Zpos _ -> pos_div_eucl a' b
+       | Zneg b' ->
+         let (q0, r) = pos_div_eucl a' (Zpos b') in
+         (match r with
+          | Z0 -> ((opp q0), Z0)
+          | _ -> ((opp (add q0 (Zpos XH))), (add b r))))
+    | Zneg a' ->
+      (match b with
+       | Z0 -> (Z0, a)
+       | Zpos _ ->
+         let (q0, r) = pos_div_eucl a' b in
+         (match r with
+          | Z0 -> ((opp q0), Z0)
+          | _ -> ((opp (add q0 (Zpos XH))), (sub b r)))
+       | Zneg b' -> let (q0, r) = pos_div_eucl a' (Zpos b') in (q0, (opp r)))
+
+  (** val modulo : z -> z -> z **)
+
+  let modulo a b =
+    let (_, r) = div_eucl a b in r
  end
+
+(** val pANIC : z **)
+
+let pANIC =
+  Zneg (XI (XO (XO (XO (XO (XO (XI (XO (XO (XI (XO (XO (XO (XO (XI (XO (XI
+    (XI (XI XH)))))))))))))))))))
 
 (** val bADCASE : z **)
 
@@ -759,12 +932,36 @@ let bz z0 =
 let put_list l =
   (Z.of_nat (length l)) :: l
 
+(** val get_list : z list -> z list * z list **)
+
+let get_list = function
+| [] -> ([], [])
+| n0 :: t -> ((firstn (Z.to_nat n0) t), (skipn (Z.to_nat n0) t))
+
+(** val get_lists : nat -> z list -> z list list * z list **)
+
+let rec get_lists n0 l =
+  match n0 with
+  | O -> ([], l)
+  | S k ->
+    let (a, r) = get_list l in let (b, r') = get_lists k r in ((a :: b), r')
+
 (** val of_Ns : n list -> z list **)
 
 let of_Ns l =
   map Z.of_N l
 
-(** val upd : n list -> nat -> n -> n list **)
+(** val m32 : z **)
+
+let m32 =
+  Z.pow (Zpos (XO XH)) (Zpos (XO (XO (XO (XO (XO XH))))))
+
+(** val u32 : z -> z **)
+
+let u32 x =
+  Z.modulo x m32
+
+(** val upd : 'a1 list -> nat -> 'a1 -> 'a1 list **)
 
 let rec upd l i x =
   match l with
@@ -772,6 +969,374 @@ let rec upd l i x =
   | h :: t -> (match i with
                | O -> x :: t
                | S j -> h :: (upd t j x))
+
+type phase =
+| Free of z
+| PushOwned of z
+| Published of z
+| PopOwned of z
+
+type lin_ev =
+| LPush of z
+| LPop of z
+
+type shared = { slots : (z option * z) list; hd : z; tl0 : z; cap : z;
+                q : z list; ph : phase list; lin : lin_ev list }
+
+type pc =
+| Idle
+| PuLoadTail of z
+| PuLoadSeq of z * z * z
+| PuCas of z * z * z * z
+| PuWrite of z * z * z * z
+| PuPublish of z * z * z * z
+| PoLoadHead
+| PoLoadSeq of z * z
+| PoCas of z * z * z
+| PoRead of z * z * z * z
+| PoClear of z * z * z * z * z option
+| PoRelease of z * z * z * z * z option
+
+type op =
+| OpPush of z
+| OpPop
+
+type res =
+| RPush of bool
+| RPop of z option * z option
+
+(** val sidx : shared -> z -> nat **)
+
+let sidx s pos =
+  Z.to_nat (Z.modulo pos s.cap)
+
+(** val set_slot : shared -> nat -> (z option * z) -> phase -> shared **)
+
+let set_slot s i x f =
+  { slots = (upd s.slots i x); hd = s.hd; tl0 = s.tl0; cap = s.cap; q = s.q;
+    ph = (upd s.ph i f); lin = s.lin }
+
+(** val tstep : shared -> pc -> op -> ((shared * pc) * res option) option **)
+
+let tstep s p o =
+  match p with
+  | Idle ->
+    (match o with
+     | OpPush v -> Some ((s, (PuLoadTail v)), None)
+     | OpPop -> Some ((s, PoLoadHead), None))
+  | PuLoadTail v -> Some ((s, (PuLoadSeq (v, (u32 s.tl0), s.tl0))), None)
+  | PuLoadSeq (v, pos, t0) ->
+    (match nth_error s.slots (sidx s pos) with
+     | Some p0 ->
+       let (_, seq0) = p0 in
+       if Z.eqb pos seq0
+       then Some ((s, (PuCas (v, pos, seq0, t0))), None)
+       else Some ((s, Idle), (Some (RPush false)))
+     | None -> None)
+  | PuCas (v, pos, seq0, _) ->
+    if Z.eqb (u32 s.tl0) pos
+    then Some (({ slots = s.slots; hd = s.hd; tl0 = (Z.add s.tl0 (Zpos XH));
+           cap = s.cap; q = (app s.q (v :: [])); ph =
+           (upd s.ph (sidx s pos) (PushOwned s.tl0)); lin =
+           (app s.lin ((LPush v) :: [])) }, (PuWrite (v, pos, seq0, s.tl0))),
+           None)
+    else Some ((s, Idle), (Some (RPush false)))
+  | PuWrite (v, pos, seq0, t0) ->
+    (match nth_error s.slots (sidx s pos) with
+     | Some p0 ->
+       let (_, sq) = p0 in
+       Some (((set_slot s (sidx s pos) ((Some v), sq) (PushOwned t0)),
+       (PuPublish (v, pos, seq0, t0))), None)
+     | None -> None)
+  | PuPublish (_, pos, seq0, t0) ->
+    (match nth_error s.slots (sidx s pos) with
+     | Some p0 ->
+       let (x, _) = p0 in
+       Some
+       (((set_slot s (sidx s pos) (x, (u32 (Z.add seq0 (Zpos XH))))
+           (Published t0)), Idle), (Some (RPush true)))
+     | None -> None)
+  | PoLoadHead -> Some ((s, (PoLoadSeq ((u32 s.hd), s.hd))), None)
+  | PoLoadSeq (pos, h0) ->
+    (match nth_error s.slots (sidx s pos) with
+     | Some p0 ->
+       let (_, seq0) = p0 in
+       if Z.eqb (u32 (Z.add pos (Zpos XH))) seq0
+       then Some ((s, (PoCas (pos, seq0, h0))), None)
+       else Some ((s, Idle), (Some (RPop (None, None))))
+     | None -> None)
+  | PoCas (pos, seq0, _) ->
+    if Z.eqb (u32 s.hd) pos
+    then Some (({ slots = s.slots; hd = (Z.add s.hd (Zpos XH)); tl0 = s.tl0;
+           cap = s.cap; q = (tl s.q); ph =
+           (upd s.ph (sidx s pos) (PopOwned s.hd)); lin =
+           (app s.lin ((LPop (nth O s.q Z0)) :: [])) }, (PoRead (pos, seq0,
+           s.hd, (nth O s.q Z0)))), None)
+    else Some ((s, Idle), (Some (RPop (None, None))))
+  | PoRead (pos, seq0, h0, gv) ->
+    (match nth_error s.slots (sidx s pos) with
+     | Some p0 ->
+       let (x, _) = p0 in Some ((s, (PoClear (pos, seq0, h0, gv, x))), None)
+     | None -> None)
+  | PoClear (pos, seq0, h0, gv, val0) ->
+    (match nth_error s.slots (sidx s pos) with
+     | Some p0 ->
+       let (_, sq) = p0 in
+       Some (((set_slot s (sidx s pos) (None, sq) (PopOwned h0)), (PoRelease
+       (pos, seq0, h0, gv, val0))), None)
+     | None -> None)
+  | PoRelease (pos, seq0, h0, gv, val0) ->
+    (match nth_error s.slots (sidx s pos) with
+     | Some p0 ->
+       let (x, _) = p0 in
+       Some
+       (((set_slot s (sidx s pos) (x,
+           (u32 (Z.add seq0 (Z.sub s.cap (Zpos XH))))) (Free
+           (Z.add h0 s.cap))), Idle), (Some (RPop (val0, (Some gv)))))
+     | None -> None)
+
+type config = { sh : shared; ths : pc list; hist : (nat * res) list }
+
+(** val step : config -> (nat * op) -> config option **)
+
+let step c = function
+| (i, o) ->
+  (match nth_error c.ths i with
+   | Some p ->
+     (match tstep c.sh p o with
+      | Some p0 ->
+        let (p1, r) = p0 in
+        let (s', p') = p1 in
+        Some { sh = s'; ths = (upd c.ths i p'); hist =
+        (match r with
+         | Some x -> app c.hist ((i, x) :: [])
+         | None -> c.hist) }
+      | None -> None)
+   | None -> Some c)
+
+(** val evLoadU32 : z **)
+
+let evLoadU32 =
+  Zpos XH
+
+(** val evStoreU32 : z **)
+
+let evStoreU32 =
+  Zpos (XO XH)
+
+(** val evCasU32 : z **)
+
+let evCasU32 =
+  Zpos (XI XH)
+
+(** val locHead : z **)
+
+let locHead =
+  Z0
+
+(** val locTail : z **)
+
+let locTail =
+  Zpos XH
+
+(** val loc_slot : shared -> z -> z **)
+
+let loc_slot s pos =
+  Z.add (Zpos (XO XH)) (Z.of_nat (sidx s pos))
+
+(** val slot_seq : shared -> z -> z **)
+
+let slot_seq s pos =
+  match nth_error s.slots (sidx s pos) with
+  | Some p -> let (_, sq) = p in sq
+  | None -> Zneg XH
+
+(** val observe : shared -> pc -> z list **)
+
+let observe s = function
+| Idle -> Z0 :: []
+| PuLoadTail _ ->
+  (Zpos XH) :: (evLoadU32 :: (locTail :: (Z0 :: (Z0 :: ((u32 s.tl0) :: [])))))
+| PuLoadSeq (_, pos, _) ->
+  (Zpos
+    XH) :: (evLoadU32 :: ((loc_slot s pos) :: (Z0 :: (Z0 :: ((slot_seq s pos) :: [])))))
+| PuCas (_, pos, _, _) ->
+  (Zpos
+    XH) :: (evCasU32 :: (locTail :: (pos :: ((u32 (Z.add pos (Zpos XH))) :: (
+    (zb (Z.eqb (u32 s.tl0) pos)) :: [])))))
+| PuPublish (_, pos, seq0, _) ->
+  (Zpos
+    XH) :: (evStoreU32 :: ((loc_slot s pos) :: ((u32 (Z.add seq0 (Zpos XH))) :: (Z0 :: (Z0 :: [])))))
+| PoLoadHead ->
+  (Zpos XH) :: (evLoadU32 :: (locHead :: (Z0 :: (Z0 :: ((u32 s.hd) :: [])))))
+| PoLoadSeq (pos, _) ->
+  (Zpos
+    XH) :: (evLoadU32 :: ((loc_slot s pos) :: (Z0 :: (Z0 :: ((slot_seq s pos) :: [])))))
+| PoCas (pos, _, _) ->
+  (Zpos
+    XH) :: (evCasU32 :: (locHead :: (pos :: ((u32 (Z.add pos (Zpos XH))) :: (
+    (zb (Z.eqb (u32 s.hd) pos)) :: [])))))
+| PoRelease (pos, seq0, _, _, _) ->
+  (Zpos
+    XH) :: (evStoreU32 :: ((loc_slot s pos) :: ((u32
+                                                  (Z.add seq0
+                                                    (Z.sub s.cap (Zpos XH)))) :: (Z0 :: (Z0 :: [])))))
+| _ -> (Zpos (XO XH)) :: []
+
+(** val dec_op : z -> op **)
+
+let dec_op z0 =
+  if Z.eqb z0 Z0 then OpPop else OpPush z0
+
+(** val updl : 'a1 list -> nat -> 'a1 -> 'a1 list **)
+
+let rec updl l i x =
+  match l with
+  | [] -> []
+  | h :: t -> (match i with
+               | O -> x :: t
+               | S j -> h :: (updl t j x))
+
+(** val go :
+    config -> z list list -> z list -> z list -> (config * z list) option **)
+
+let rec go c progs sched acc =
+  match sched with
+  | [] -> Some (c, acc)
+  | t :: rest ->
+    let i = Z.to_nat t in
+    (match nth_error c.ths i with
+     | Some p ->
+       let prog = nth i progs [] in
+       (match p with
+        | Idle ->
+          (match prog with
+           | [] -> go c progs rest acc
+           | _ :: _ ->
+             let o = match prog with
+                     | [] -> OpPop
+                     | x :: _ -> dec_op x in
+             let progs' =
+               match p with
+               | Idle -> updl progs i (tl prog)
+               | _ -> progs
+             in
+             let ev = observe c.sh p in
+             (match step c (i, o) with
+              | Some c' -> go c' progs' rest (rev_append (t :: ev) acc)
+              | None -> None))
+        | _ ->
+          let o = match prog with
+                  | [] -> OpPop
+                  | x :: _ -> dec_op x in
+          let progs' =
+            match p with
+            | Idle -> updl progs i (tl prog)
+            | _ -> progs
+          in
+          let ev = observe c.sh p in
+          (match step c (i, o) with
+           | Some c' -> go c' progs' rest (rev_append (t :: ev) acc)
+           | None -> None))
+     | None -> go c progs rest acc)
+
+(** val fill_val : z -> z **)
+
+let fill_val j =
+  Z.add (Zpos (XI (XO (XO (XI (XO (XI (XO (XO (XI (XI (XO (XO (XO
+    XH)))))))))))))) j
+
+(** val seq_state : z -> z -> z -> nat -> config **)
+
+let seq_state k base fill n0 =
+  let c = Z.pow (Zpos (XO XH)) k in
+  let slot = fun i ->
+    let p = Z.add base (Z.modulo (Z.sub i base) c) in
+    if Z.ltb p (Z.add base fill)
+    then (((Some (fill_val (Z.sub p base))), (u32 (Z.add p (Zpos XH)))),
+           (Published p))
+    else ((None, (u32 p)), (Free p))
+  in
+  let idx = map Z.of_nat (seq O (Z.to_nat c)) in
+  let vs = map fill_val (map Z.of_nat (seq O (Z.to_nat fill))) in
+  { sh = { slots = (map (fun i -> fst (slot i)) idx); hd = base; tl0 =
+  (Z.add base fill); cap = c; q = vs; ph = (map (fun i -> snd (slot i)) idx);
+  lin = (map (fun x -> LPush x) vs) }; ths = (repeat Idle n0); hist = [] }
+
+(** val enc_res : res -> z list **)
+
+let enc_res = function
+| RPush b -> (Zpos XH) :: ((zb b) :: [])
+| RPop (o, _) ->
+  (match o with
+   | Some v -> (Zpos (XO XH)) :: ((Zpos XH) :: (v :: []))
+   | None -> (Zpos (XO XH)) :: (Z0 :: (Z0 :: [])))
+
+(** val results_of : (nat * res) list -> nat -> z list **)
+
+let results_of h i =
+  flat_map (fun e -> if Nat.eqb (fst e) i then enc_res (snd e) else []) h
+
+(** val enc_slot : (z option * z) -> z list **)
+
+let enc_slot x =
+  (match fst x with
+   | Some v -> v
+   | None -> Z0) :: ((snd x) :: [])
+
+(** val run_case : z list -> z list **)
+
+let run_case = function
+| [] -> bADCASE :: []
+| k :: l ->
+  (match l with
+   | [] -> bADCASE :: []
+   | bh :: l0 ->
+     (match l0 with
+      | [] -> bADCASE :: []
+      | bl :: l1 ->
+        (match l1 with
+         | [] -> bADCASE :: []
+         | fill :: l2 ->
+           (match l2 with
+            | [] -> bADCASE :: []
+            | nt :: r ->
+              let n0 = Z.to_nat nt in
+              let (progs, r1) = get_lists n0 r in
+              let (sched, _) = get_list r1 in
+              let c0 =
+                seq_state k
+                  (Z.add
+                    (Z.mul bh
+                      (Z.pow (Zpos (XO XH)) (Zpos (XO (XO (XO (XO (XO
+                        XH)))))))) bl) fill n0
+              in
+              (match go c0 progs sched [] with
+               | Some p ->
+                 let (c, acc) = p in
+                 app (rev' acc)
+                   (app ((Zneg XH) :: [])
+                     (app
+                       (flat_map (fun i -> put_list (results_of c.hist i))
+                         (seq O n0))
+                       (app ((Zneg (XO
+                         XH)) :: ((u32 c.sh.hd) :: ((u32 c.sh.tl0) :: [])))
+                         (flat_map enc_slot c.sh.slots))))
+               | None -> pANIC :: [])))))
+
+(** val entry : z -> z list -> z list **)
+
+let entry sub0 args =
+  if Z.eqb sub0 Z0 then run_case args else bADCASE :: []
+
+(** val upd0 : n list -> nat -> n -> n list **)
+
+let rec upd0 l i x =
+  match l with
+  | [] -> []
+  | h :: t -> (match i with
+               | O -> x :: t
+               | S j -> h :: (upd0 t j x))
 
 (** val widx : n -> nat **)
 
@@ -800,9 +1365,9 @@ let add0 set num =
   let i = widx num in
   if Nat.leb (length set) i
   then let grown = app set (repeat N0 (sub (add i (S O)) (length set))) in
-       ((upd grown i (N.coq_lor (nth i grown N0) (mask0 (bidx num)))), true)
+       ((upd0 grown i (N.coq_lor (nth i grown N0) (mask0 (bidx num)))), true)
   else if N.eqb (N.coq_land (nth i set N0) (mask0 (bidx num))) N0
-       then ((upd set i (N.coq_lor (nth i set N0) (mask0 (bidx num)))), true)
+       then ((upd0 set i (N.coq_lor (nth i set N0) (mask0 (bidx num)))), true)
        else (set, false)
 
 (** val remove : n list -> n -> n list * bool **)
@@ -811,7 +1376,7 @@ let remove set num =
   let i = widx num in
   if (&&) (Nat.ltb i (length set))
        (negb (N.eqb (N.coq_land (nth i set N0) (mask0 (bidx num))) N0))
-  then ((upd set i (N.ldiff (nth i set N0) (mask0 (bidx num)))), true)
+  then ((upd0 set i (N.ldiff (nth i set N0) (mask0 (bidx num)))), true)
   else (set, false)
 
 type iter0 = { wi : nat; bj : n; rd : bool }
@@ -934,9 +1499,9 @@ let grow set n0 =
   then app set (repeat N0 (sub (add i (S O)) (length set)))
   else set
 
-(** val cap : n list -> n **)
+(** val cap0 : n list -> n **)
 
-let cap set =
+let cap0 set =
   N.shiftl (N.of_nat (length set)) (Npos (XO (XI XH)))
 
 (** val b_add : bits -> n -> bits * bool **)
@@ -980,7 +1545,7 @@ type kind =
 | KBitmap
 | KDsz
 
-type op =
+type op0 =
 | OAdd of bool * n
 | ORemove of bool * n
 | OContains of bool * n
@@ -1012,9 +1577,9 @@ let len_of k b =
   | KBitmap -> Z.of_nat (len b.words)
   | _ -> b.cached
 
-(** val step : kind -> (bits * bits) -> op -> (bits * bits) * z list **)
+(** val step0 : kind -> (bits * bits) -> op0 -> (bits * bits) * z list **)
 
-let step k st = function
+let step0 k st = function
 | OAdd (t, n0) ->
   let (b, ch) = b_add (sel t st) n0 in
   ((upd2 t st b), (match k with
@@ -1027,7 +1592,7 @@ let step k st = function
                    | _ -> (zb ch) :: []))
 | OContains (t, n0) -> (st, ((zb (contains (sel t st).words n0)) :: []))
 | OLen t -> (st, ((len_of k (sel t st)) :: []))
-| OCap t -> (st, ((Z.of_N (cap (sel t st).words)) :: []))
+| OCap t -> (st, ((Z.of_N (cap0 (sel t st).words)) :: []))
 | OGrow (t, n0) ->
   let b = sel t st in
   ((upd2 t st { words = (grow b.words n0); cached = b.cached }), [])
@@ -1043,11 +1608,11 @@ let step k st = function
   ((upd2 t st (recount (merge (sel t st).words (sel (negb t) st).words))), [])
 | OClone t -> ((upd2 (negb t) st (sel t st)), [])
 
-(** val run : kind -> (bits * bits) -> op list -> z list **)
+(** val run : kind -> (bits * bits) -> op0 list -> z list **)
 
 let rec run k st = function
 | [] -> []
-| o :: r -> let (st', out) = step k st o in app out (run k st' r)
+| o :: r -> let (st', out) = step0 k st o in app out (run k st' r)
 
 (** val empty : bits **)
 
@@ -1095,7 +1660,7 @@ let need n0 =
   N.mul (N.add (N.div n0 (Npos (XO (XO (XO (XO (XO (XO XH)))))))) (Npos XH))
     (Npos (XO (XO (XO (XO (XO (XO XH)))))))
 
-(** val s_step : kind -> (sset * sset) -> op -> (sset * sset) * z list **)
+(** val s_step : kind -> (sset * sset) -> op0 -> (sset * sset) * z list **)
 
 let s_step k st = function
 | OAdd (t, n0) ->
@@ -1147,7 +1712,7 @@ let s_step k st = function
      (N.max s.scap o'.scap) }), [])
 | OClone t -> ((upd2 (negb t) st (sel t st)), [])
 
-(** val s_run : kind -> (sset * sset) -> op list -> z list **)
+(** val s_run : kind -> (sset * sset) -> op0 list -> z list **)
 
 let rec s_run k st = function
 | [] -> []
@@ -1163,9 +1728,9 @@ let s_empty =
 let dec_kind z0 =
   if Z.eqb z0 Z0 then KBits else if Z.eqb z0 (Zpos XH) then KBitmap else KDsz
 
-(** val dec_op : z -> z -> z -> op option **)
+(** val dec_op0 : z -> z -> z -> op0 option **)
 
-let dec_op c t a =
+let dec_op0 c t a =
   let tb = bz t in
   let n0 = Z.to_N a in
   let k = Z.to_nat a in
@@ -1205,7 +1770,7 @@ let dec_op c t a =
                                                                     tb)
                                                               else None
 
-(** val dec_ops : nat -> z list -> op list option **)
+(** val dec_ops : nat -> z list -> op0 list option **)
 
 let rec dec_ops fuel l =
   match fuel with
@@ -1222,16 +1787,16 @@ let rec dec_ops fuel l =
           (match l1 with
            | [] -> None
            | a :: r ->
-             (match dec_op c t a with
+             (match dec_op0 c t a with
               | Some o ->
                 (match dec_ops f r with
                  | Some os -> Some (o :: os)
                  | None -> None)
               | None -> None))))
 
-(** val entry : z -> z list -> z list **)
+(** val entry0 : z -> z list -> z list **)
 
-let entry sub0 = function
+let entry0 sub0 = function
 | [] -> bADCASE :: []
 | k :: r ->
   (match dec_ops (length r) r with
@@ -1246,4 +1811,6 @@ let entry sub0 = function
 (** val dispatch : z -> z -> z list -> z list **)
 
 let dispatch p sub0 args =
-  if Z.eqb p (Zpos (XO (XO (XO (XO XH))))) then entry sub0 args else []
+  if Z.eqb p (Zpos XH)
+  then entry sub0 args
+  else if Z.eqb p (Zpos (XO (XO (XO (XO XH))))) then entry0 sub0 args else []
